@@ -174,6 +174,19 @@ def feat_typedef_of_derived_struct(env, ty, case):
     return False
 
 
+def feat_padded_array_after_unsized_payload(env, ty, case):
+    for d in [env.decls[ty]] + env.parents(env.decls[ty]):
+        fs = d["fields"]
+        sized = any(f["kind"] == "size_field" and f.get("field_id") in ("_payload_", "_body_") for f in fs)
+        seen = False
+        for f in fs:
+            if f["kind"] in ("payload_field", "body_field"):
+                seen = not sized
+            elif seen and f["kind"] == "padding_field":
+                return True
+    return False
+
+
 def feat_any(env, ty, case):
     return True
 
